@@ -65,14 +65,22 @@ def RP.add (r : RP) (dur : Int) (d : Int) : RP :=
       | some s => { r with slots := r.slots.set idx (s.add dur) }
       | none => r
 
-def leInt (a b : Int) : Bool := decide (a ≤ b)
+/-- insertion sort on integers (structurally recursive, so the kernel can evaluate it); Go uses `sort.Slice`,
+    any correct sort gives the same list of integers -/
+def insertSorted (x : Int) : List Int → List Int
+  | [] => [x]
+  | y :: ys => if x ≤ y then x :: y :: ys else y :: insertSorted x ys
+
+def isort : List Int → List Int
+  | [] => []
+  | x :: xs => insertSorted x (isort xs)
 
 /-- `SortedDurations(now)` / `SnapshotAt(now)` -/
 def RP.snapshot (r : RP) (d : Int) : RP × List Int :=
   if r.slots.length = 0 then (r, [])
   else
     let r := (r.advance d).1
-    (r, ((r.slots.map DSlot.durations).flatten).mergeSort leInt)
+    (r, isort ((r.slots.map DSlot.durations).flatten))
 
 def RP.reset (r : RP) (d : Int) : RP :=
   let r := (r.advance d).1
